@@ -2,7 +2,8 @@
 """Regenerates MANIFEST.json from checks.json + manifest_meta.json (levels, notes, N/A reasons)."""
 import json, os
 root = os.path.dirname(os.path.dirname(os.path.abspath(__file__)))
-checks = json.load(open(os.path.join(root, 'checks.json')))
+import glob
+checks = {os.path.basename(f)[:-5]: json.load(open(f)) for f in glob.glob(os.path.join(root, 'checks', 'C*.json'))}
 meta = json.load(open(os.path.join(root, 'manifest_meta.json')))
 props = [json.loads(l) for l in open(os.path.join(root, 'properties.jsonl')) if l.strip()]
 out = {
